@@ -139,12 +139,54 @@ class Outcome:
         return f"Outcome(ok={self.ok}, exc={self.exc!r:.200}, route={self.route})"
 
 
+_rs = [0]
+respelled = {"joined-with-equals": 0, "options-reordered": 0}
+
+
+def respell(argv):
+    """the same command line written another way: `--opt value` as `--opt=value`, and the options in another order
+    (repeated options keep their relative order - it is meaningful, e.g. the slot order of --input). Sub-command words
+    stay in front.  argparse treats all of these alike; a tool that looks at the raw command line may not."""
+    argv = [str(a) for a in argv]
+    _rs[0] += 1
+    r = random.Random(f"respell/{_rs[0]}")
+    head = []
+    i = 0
+    while i < len(argv) and not argv[i].startswith("--"):
+        head.append(argv[i])
+        i += 1
+    groups = []
+    while i < len(argv):
+        g = [argv[i]]
+        i += 1
+        while i < len(argv) and not argv[i].startswith("--"):
+            g.append(argv[i])
+            i += 1
+        groups.append(g)
+    if r.random() < 0.4:
+        keys = {}
+        for g in groups:
+            keys.setdefault(g[0], r.random())
+        order = sorted(range(len(groups)), key=lambda j: (keys[groups[j][0]], j))
+        if order != list(range(len(groups))):
+            respelled["options-reordered"] += 1
+        groups = [groups[j] for j in order]
+    out = list(head)
+    for g in groups:
+        if len(g) == 2 and "=" not in g[0] and r.random() < 0.35:
+            out.append(f"{g[0]}={g[1]}")
+            respelled["joined-with-equals"] += 1
+        else:
+            out.extend(g)
+    return out
+
+
 def cli_inproc(argv, logfile=None):
     """R2: returns (rc, exception or None).  rc: 0 ok, n from exit(n), -1 for an escaping exception"""
     from suit_generator import cli
     old = sys.argv
-    sys.argv = ["suit-generator", "--log-filename", logfile or os.path.join(os.getcwd(), "suit-generator.log")] + [
-        str(a) for a in argv]
+    sys.argv = ["suit-generator", "--log-filename", logfile or os.path.join(os.getcwd(), "suit-generator.log")] + \
+        respell(argv)
     try:
         with contextlib.redirect_stdout(io.StringIO()), contextlib.redirect_stderr(io.StringIO()):
             cli.main()
@@ -163,6 +205,7 @@ def cli_inproc(argv, logfile=None):
 _subs = [0]
 optimized_runs = [0]
 ascii_locale_runs = [0]
+warnings_as_errors_runs = [0]
 
 
 def cli_sub(argv, cwd, guard=False, timeout=300, env_extra=None, hashseed="0", ascii_locale=True):
@@ -185,7 +228,12 @@ def cli_sub(argv, cwd, guard=False, timeout=300, env_extra=None, hashseed="0", a
         env.update({"LC_ALL": "C", "LANG": "C", "PYTHONUTF8": "0", "PYTHONCOERCECLOCALE": "0"})
         env.pop("PYTHONIOENCODING", None)
         ascii_locale_runs[0] += 1
-    p = subprocess.run([core.PY] + flags + ["-m", "suit_generator.cli"] + [str(a) for a in argv], cwd=cwd, env=env,
+    if random.Random(f"werror/{_subs[0]}").random() < 0.3:
+        # warnings turned into errors (a CI interpreter run with -W error / PYTHONWARNINGS=error): a deprecated call on
+        # a rarely taken path must not change what the tool does
+        flags += ["-W", "error"]
+        warnings_as_errors_runs[0] += 1
+    p = subprocess.run([core.PY] + flags + ["-m", "suit_generator.cli"] + respell(argv), cwd=cwd, env=env,
                        capture_output=True, timeout=timeout)
     return p.returncode, p.stderr.decode("utf-8", "replace")[-1500:]
 
@@ -214,6 +262,25 @@ def script_sub(script, argv, cwd, guard=False, timeout=300):
 
 
 # ---- create ----------------------------------------------------------------------------------------
+HOME_STORES = [".suit-generator/keys", ".config/suit-generator/keys", ".suit_generator/keys",
+               ".config/suit_generator/keys", ".local/share/suit-generator/keys", ".suit/keys", ".keys", "keys"]
+planted_in_home = [0]
+
+
+def plant_in_home(file_name, data):
+    """hostile HOME: a per-user 'key store' in every plausible place holds a file of the same NAME with other content;
+    the file the command names must be used (HOME is a scratch directory set by the runner)"""
+    home = os.environ.get("VERIF_HOSTILE_HOME")
+    if not home or os.environ.get("HOME") != home:
+        return
+    for loc in HOME_STORES:
+        d = os.path.join(home, loc)
+        os.makedirs(d, exist_ok=True)
+        with open(os.path.join(d, file_name), "wb") as fh:
+            fh.write(data)
+    planted_in_home[0] += 1
+
+
 DECOY = b"DECOY FILE: nothing in the description refers to a file of this name\n"
 decoys_placed = [0]
 _c = [0]
